@@ -311,3 +311,341 @@ Definition join_case (N : list nat) (loops : list (list nat))
   let '(js, ok) := join_order N loops in
   Bool.eqb ok exp_ok
   && list_eqb (fun a b => Nat.eqb (fst a) (fst b) && set_eqb (snd a) (snd b)) js exp_calls.
+
+(* ------------------------------------------------------------------ part 4: Network.sort on nested paths
+   Items are units or sub-networks.  PathSource(Network) (network.py:2104-2117):
+     units           = union over the units of the sub-network of their downstream units (one shared set,
+                       get_downstream_units called with downstream_units=units for each of them)
+     downstream_from = self is not other and any([i in other.units for i in source.units])
+   Items carry their position in the path as a tag, which plays the role of object identity
+   (`self is not other`).  Network.units of a sub-network is taken to be the units of its path
+   (the harness asserts this on every observed network; part 5 is about that invariant).
+   [all] lists every stream, feeds and products included, with [nounit] for a missing end. *)
+Definition nounit : nat := 99.
+
+Definition down_item (es : list edge) (ends : list nat) (x : item) : list nat :=
+  match x with
+  | IUnit u => downstream es ends u
+  | INet _ _ => fold_left (fun s u => dloop (S (length es)) es ends s (nbrs es ends u)) (flat x) []
+  end.
+
+Definition titem := (nat * item)%type.
+
+(* item_reach x u = u.downstream_from(x) *)
+Definition item_reach (es : list edge) (ends : list nat) (x u : titem) : bool :=
+  match snd u with
+  | IUnit v => memb v (down_item es ends (snd x))
+  | INet _ _ => negb (fst x =? fst u)
+                && existsb (fun a => memb a (down_item es ends (snd x))) (flat (snd u))
+  end.
+
+(* tmo.utils.streams_from_units(network.units), unit.outs, unit.ins as stream ids *)
+Definition streams_of (all : list edge) (X : list nat) : list nat :=
+  map sid (filter (fun e => memb (src e) X || memb (dst e) X) all).
+Definition outs_of (all : list edge) (u : nat) : list nat := map sid (filter (fun e => src e =? u) all).
+Definition ins_of (all : list edge) (u : nat) : list nat := map sid (filter (fun e => dst e =? u) all).
+Definition inter (a b : list nat) : list nat := filter (fun x => memb x b) a.
+
+(* the `recycles` of the mutual-reachability branch; u = upstream = path[i], y = downstream = path[j] *)
+Definition item_direct (all : list edge) (ends : list nat) (u y : titem) : list nat :=
+  let cand :=
+    match snd y, snd u with
+    | INet _ _, INet _ _ => inter (streams_of all (flat (snd y))) (streams_of all (flat (snd u)))
+    | INet _ _, IUnit a => inter (streams_of all (flat (snd y))) (outs_of all a)
+    | IUnit b, INet _ _ => inter (streams_of all (flat (snd u))) (outs_of all b)
+    | IUnit b, IUnit a => filter (fun s => memb s (ins_of all b)) (outs_of all a)
+    end in
+  filter (fun s => negb (memb s ends)) cand.
+
+(* Network.sort(ends): sub-networks first, then this level; add_recycle(set(recycles)) merges into
+   the network's own recycle; second component = no 'path could not be determined' warning at any level *)
+Fixpoint sort_tree (es all : list edge) (ends : list nat) (i : item) : item * bool :=
+  match i with
+  | IUnit u => (IUnit u, true)
+  | INet p r =>
+      let ps := map (sort_tree es all ends) p in
+      let '(p2, stop, rs) := sort (item_reach es ends) (item_direct all ends) (number (map fst ps)) in
+      (INet (map snd p2) (add_all r rs), forallb snd ps && stop)
+  end.
+
+Fixpoint item_eqb (a b : item) : bool :=
+  match a, b with
+  | IUnit u, IUnit v => u =? v
+  | INet p r, INet q s =>
+      (fix go (l m : list item) : bool :=
+         match l, m with
+         | [], [] => true
+         | x :: l', y :: m' => item_eqb x y && go l' m'
+         | _, _ => false
+         end) p q && set_eqb r s
+  | _, _ => false
+  end.
+
+(* every level of the (recursively sorted) tree is strictly ordered by item_reach: decidable *)
+Fixpoint tree_strictb (es all : list edge) (ends : list nat) (i : item) : bool :=
+  match i with
+  | IUnit _ => true
+  | INet p r =>
+      forallb (tree_strictb es all ends) p
+      && strict_onb (item_reach es ends) (number (map (fun x => fst (sort_tree es all ends x)) p))
+  end.
+
+Definition nsort_case (es all : list edge) (ends : list nat) (before after : item) (exp_ok : bool)
+           (exp_down : list (list nat)) : bool :=
+  let '(t, ok) := sort_tree es all ends before in
+  item_eqb t after && Bool.eqb ok exp_ok
+  && match before with
+     | INet p _ => list_eqb set_eqb (map (down_item es ends) p) exp_down
+     | IUnit _ => false
+     end.
+
+(* ------------------------------------------------------------------ part 5: path surgery
+   Network objects as trees that keep the `units` attribute apart from the path, so that
+   "units equals the units of the path" is a statement about the model and not built in.
+   Transcribed from network.py: _remove_overlap, _append_linear_network, _insert_linear_network,
+   _add_linear_network, join_linear_network, join_recycle_network, _insert_recycle_network,
+   add_recycle, recycle_sink, get_recycle_units, isdisjoint.  Mutation in place becomes a returned
+   tree; None = ValueError('networks must have units in common to join') or fuel exhausted.
+   `recycle_sink` of a recycle *set* is the sink of whichever stream Python iterates first: that
+   choice is an oracle [tbl] (observed by the harness) with the first listed stream as default. *)
+Inductive net : Type :=
+| NU (u : nat)
+| NN (path : list net) (rc : list nat) (units : list nat).
+
+Definition is_net (x : net) : bool := match x with NN _ _ _ => true | NU _ => false end.
+Definition n_path (x : net) : list net := match x with NN p _ _ => p | NU _ => [] end.
+Definition n_rc (x : net) : list nat := match x with NN _ r _ => r | NU _ => [] end.
+Definition n_units (x : net) : list nat := match x with NN _ _ U => U | NU u => [u] end.
+Definition set_path (x : net) (p : list net) : net := NN p (n_rc x) (n_units x).
+Definition set_rc (x : net) (r : list nat) : net := NN (n_path x) r (n_units x).
+
+Fixpoint flatn (x : net) : list nat :=
+  match x with
+  | NU u => [u]
+  | NN p _ _ => flat_map flatn p
+  end.
+
+Definition unit_in (U : list nat) (x : net) : bool :=
+  match x with NU u => memb u U | NN _ _ _ => false end.
+
+(* list.remove(unit): the first occurrence *)
+Fixpoint remove_unit (u : nat) (p : list net) : list net :=
+  match p with
+  | [] => []
+  | NU v :: t => if v =? u then t else NU v :: remove_unit u t
+  | x :: t => x :: remove_unit u t
+  end.
+
+(* Network._remove_overlap(network, path_tuple) on self.path *)
+Definition remove_overlap (path : list net) (U : list nat) (path_tuple : list net) : list net :=
+  fold_left (fun p i => match i with
+                        | NU u => if memb u U then remove_unit u p else p
+                        | NN _ _ _ => p
+                        end) path_tuple path.
+
+Definition insert_at {A} (i : nat) (x l : list A) : list A := firstn i l ++ x ++ skipn i l.
+
+Definition append_linear (s n : net) : net :=
+  NN (n_path s ++ n_path n) (n_rc s) (add_all (n_units s) (n_units n)).
+
+Definition insert_linear (s : net) (index : nat) (n : net) : net :=
+  NN (insert_at index (n_path n) (n_path s)) (n_rc s) (add_all (n_units s) (n_units n)).
+
+Definition overlaps (a b : net) : bool := negb (disjointb (n_units a) (n_units b)).
+
+Fixpoint find_index {A} (f : A -> bool) (l : list A) : option nat :=
+  match l with
+  | [] => None
+  | x :: t => if f x then Some 0 else option_map S (find_index f t)
+  end.
+
+(* Network._add_linear_network *)
+Fixpoint add_linear (s n : net) : net :=
+  match s with
+  | NU u => NU u
+  | NN p r U =>
+      let Un := n_units n in
+      match (fix go (l : list net) : option (list net) :=
+               match l with
+               | [] => None
+               | x :: t =>
+                   if is_net x && overlaps n x then Some (add_linear x n :: t)
+                   else option_map (cons x) (go t)
+               end) p with
+      | Some p' => NN (remove_overlap p' Un p) r (add_all U Un)
+      | None =>
+          let s1 := NN (remove_overlap p Un p) r U in
+          match find_index (unit_in Un) p with
+          | Some index => insert_linear s1 index n
+          | None => append_linear s1 n
+          end
+      end
+  end.
+
+(* Network.join_linear_network *)
+Fixpoint join_linear (fuel : nat) (s n : net) : net :=
+  match fuel with
+  | O => s
+  | S f =>
+      let Un := n_units n in
+      let p := n_path s in
+      (fix loop (l : list net) (index : nat) (cur : net) : net :=
+         match l with
+         | [] => append_linear cur n
+         | NN _ _ Ux as x :: t =>
+             if negb (disjointb Ux Un) then loop t (S index) (join_linear f cur x)
+             else loop t (S index) cur
+         | NU u :: t =>
+             if memb u Un then insert_linear cur index n else loop t (S index) cur
+         end) p 0 (set_path s (remove_overlap p Un p))
+  end.
+
+Section Surgery.
+Variable es : list edge.            (* process streams *)
+Variable all : list edge.           (* every stream, [nounit] for a missing end *)
+Variable tbl : list (list nat * nat).  (* observed recycle_sink of recycle sets *)
+
+Definition sink_of (s : nat) : nat :=
+  match find (fun e => sid e =? s) all with Some e => dst e | None => nounit end.
+
+(* Network.recycle_sink; nounit stands for None *)
+Definition rsink (r : list nat) : nat :=
+  match r with
+  | [] => nounit
+  | [s] => sink_of s
+  | s :: _ => match find (fun kv => set_eqb (fst kv) r) tbl with
+              | Some kv => snd kv
+              | None => sink_of s
+              end
+  end.
+
+(* Network.get_recycle_units: downstream and upstream closures without cut streams *)
+Definition closure_all (g : list edge) (U : list nat) : list nat :=
+  fold_left (fun s u => dloop (S (length g)) g [] s (nbrs g [] u)) U [].
+Definition recycle_units (U : list nat) : list nat :=
+  inter (closure_all es U) (closure_all (map (fun e => (sid e, dst e, src e)) es) U).
+
+Definition obind {A B} (o : option A) (f : A -> option B) : option B :=
+  match o with Some a => f a | None => None end.
+
+(* rewrite the first element satisfying f with g (which may fail) *)
+Fixpoint update_first {A} (f : A -> bool) (g : A -> option A) (l : list A) : option (option (list A)) :=
+  match l with
+  | [] => Some None
+  | x :: t =>
+      if f x then match g x with Some y => Some (Some (y :: t)) | None => None end
+      else match update_first f g t with
+           | Some (Some t') => Some (Some (x :: t'))
+           | Some None => Some None
+           | None => None
+           end
+  end.
+
+Definition pop_if_closed (seg : list net) : list net :=
+  match seg, rev seg with
+  | NU a :: _ :: _, NU b :: _ => if a =? b then removelast seg else seg
+  | _, _ => seg
+  end.
+
+(* Network.join_recycle_network and Network._insert_recycle_network *)
+Fixpoint join_recycle (fuel : nat) (s n : net) : option net :=
+  match fuel with
+  | O => None
+  | S f =>
+      let feed_forward := Some (add_linear (set_rc s (add_all (n_rc s) (n_rc n))) (set_rc n [])) in
+      if rsink (n_rc s) =? rsink (n_rc n) then feed_forward
+      else
+        let p := n_path s in
+        let Un := n_units n in
+        match update_first (fun x => is_net x && overlaps n x) (fun x => join_recycle f x n) p with
+        | None => None
+        | Some (Some p') => Some (NN (remove_overlap p' Un p) (n_rc s) (add_all (n_units s) Un))
+        | Some None =>
+            if negb (is_nil (n_rc s)) then feed_forward
+            else match find_index (unit_in Un) p with
+                 | Some index => insert_recycle f s index n p
+                 | None => None
+                 end
+        end
+  end
+with insert_recycle (fuel : nat) (s : net) (index : nat) (n : net) (path_tuple : list net) : option net :=
+  match fuel with
+  | O => None
+  | S f =>
+      let p := n_path s in
+      let RU := recycle_units (n_units n) in
+      let tail := skipn index p in
+      let merged x := is_net x && negb (disjointb (n_units x) RU) in
+      obind (fold_left (fun acc x => obind acc (fun nc => if merged x then join_recycle f nc x else Some nc))
+                       tail (Some n))
+        (fun n1 =>
+           let seg := filter (unit_in RU) tail in
+           let segU := add_all [] (flat_map flatn seg) in
+           let n2 := if negb (subsetb segU (n_units n1))
+                     then add_linear n1 (NN (pop_if_closed seg) [] segU) else n1 in
+           let p1 := firstn index p ++ filter (fun x => negb (merged x)) tail in
+           let p2 := remove_overlap p1 (n_units n2) path_tuple in
+           Some (NN (insert_at index [n2] p2) (n_rc s) (add_all (n_units s) (n_units n2))))
+  end.
+End Surgery.
+
+Fixpoint net_eqb (a b : net) : bool :=
+  match a, b with
+  | NU u, NU v => u =? v
+  | NN p r U, NN q s V =>
+      (fix go (l m : list net) : bool :=
+         match l, m with
+         | [], [] => true
+         | x :: l', y :: m' => net_eqb x y && go l' m'
+         | _, _ => false
+         end) p q && set_eqb r s && set_eqb U V
+  | _, _ => false
+  end.
+
+Definition onet_eqb (a : option net) (b : option net) : bool :=
+  match a, b with
+  | Some x, Some y => net_eqb x y
+  | None, None => true
+  | _, _ => false
+  end.
+
+(* the two invariants: no unit twice in the flattened path; units = units of the path, at every level *)
+Fixpoint units_okb (x : net) : bool :=
+  match x with
+  | NU _ => true
+  | NN p _ U => set_eqb U (flat_map flatn p) && forallb units_okb p
+  end.
+Definition nodup_pathb (x : net) : bool := nodupb (flatn x).
+
+(* one recorded surgery call *)
+Inductive step : Type :=
+| SRemoveOverlap (s : net) (U : list nat) (path_tuple : list net)
+| SAppendLinear (s n : net)
+| SInsertLinear (s : net) (index : nat) (n : net)
+| SAddLinear (s n : net)
+| SJoinLinear (s n : net)
+| SJoinRecycle (s n : net)
+| SInsertRecycle (s : net) (index : nat) (n : net) (path_tuple : list net).
+
+Definition run_step (es all : list edge) (tbl : list (list nat * nat)) (st : step) : option net :=
+  match st with
+  | SRemoveOverlap s U pt => Some (set_path s (remove_overlap (n_path s) U pt))
+  | SAppendLinear s n => Some (append_linear s n)
+  | SInsertLinear s i n => Some (insert_linear s i n)
+  | SAddLinear s n => Some (add_linear s n)
+  | SJoinLinear s n => Some (join_linear 20 s n)
+  | SJoinRecycle s n => join_recycle es all tbl 20 s n
+  | SInsertRecycle s i n pt => insert_recycle es all tbl 20 s i n pt
+  end.
+
+(* the invariants on the result of a step (the receiver of _remove_overlap is in mid-surgery) *)
+Definition step_post (st : step) (r : option net) : bool :=
+  match st, r with
+  | SRemoveOverlap _ _ _, _ => true
+  | _, Some x => units_okb x && nodup_pathb x
+  | _, None => true
+  end.
+
+Definition step_case (es all : list edge) (tbl : list (list nat * nat)) (st : step)
+           (after : option net) : bool :=
+  onet_eqb (run_step es all tbl st) after && step_post st (run_step es all tbl st).
